@@ -10,11 +10,13 @@ import (
 	"compress/flate"
 	"crypto"
 	"crypto/ecdsa"
+	crand "crypto/rand"
 	"crypto/rsa"
 	_ "crypto/sha1"
 	_ "crypto/sha256"
 	_ "crypto/sha512"
 	"crypto/x509"
+	"crypto/x509/pkix"
 	"encoding/base64"
 	"encoding/hex"
 	"encoding/xml"
@@ -79,6 +81,9 @@ type spemitVec struct {
 		NidFmt string `json:"nidfmt"`
 		Force  string `json:"force"`
 		Rac    bool   `json:"rac"`
+		// the environment of the signing decision (round 5)
+		IdpWants string `json:"idpwants"` // WantAuthnRequestsSigned in the IdP's metadata: absent | true | false ("" = absent)
+		Chain    string `json:"chain"`    // sp.Intermediates: none | one | two ("" = none)
 	} `json:"cfg"`
 	In struct {
 		Fam     string   `json:"fam"`
@@ -95,8 +100,11 @@ type spemitVec struct {
 		Policy   string `json:"policy"`
 		NearMiss bool   `json:"nearmiss"`
 		OneStep  bool   `json:"onestep"`
+		Verifier string `json:"verifier"` // which published certificate the signature must verify under: leaf | none
 	} `json:"required"`
-	Pred struct {
+	// the certificates of the signing KeyDescriptor of sp.Metadata() as the model lists them: leaf, ca1, ca2
+	Published []string `json:"published"`
+	Pred      struct {
 		Req spemitPred `json:"req"`
 		Pin spemitPred `json:"pin"`
 	} `json:"pred"`
@@ -131,7 +139,33 @@ func (v *spemitVec) caseID() string {
 	if v.In.Swap {
 		id += ":md=replaced"
 	}
-	return id
+	return id + v.envSuffix()
+}
+
+func (v *spemitVec) idpWants() string {
+	if v.Cfg.IdpWants == "" {
+		return "absent"
+	}
+	return v.Cfg.IdpWants
+}
+
+func (v *spemitVec) chain() string {
+	if v.Cfg.Chain == "" {
+		return "none"
+	}
+	return v.Cfg.Chain
+}
+
+// envSuffix names the round-5 dimensions where they leave their default (earlier keys stay what they were).
+func (v *spemitVec) envSuffix() string {
+	out := ""
+	if w := v.idpWants(); w != "absent" {
+		out += ":idpwants=" + w
+	}
+	if ch := v.chain(); ch != "none" {
+		out += ":chain=" + ch
+	}
+	return out
 }
 
 func (v *spemitVec) destClass() string {
@@ -383,6 +417,131 @@ func spemitIdpMetadataAt(at1, q1, at2, q2 string) *saml.EntityDescriptor {
 	return md
 }
 
+// ---------------------------------------------------------------------------
+// the environment of the signing decision (spec: cfg.idpwants, cfg.chain)
+
+// spemitChainSet is a real certificate chain for every fixed SP key: root (not handed to the SP) -> ca2 -> ca1
+// -> leaf.  "leaf" certifies the SP key and is what sp.Certificate holds when a chain is configured;
+// sp.Intermediates is {ca1} (chain one) or {ca1, ca2} (chain two).
+type spemitChainSet struct {
+	root, ca1, ca2 *x509.Certificate
+	mu             sync.Mutex
+	leaf           map[string]*x509.Certificate
+}
+
+var (
+	spemitChainOnce sync.Once
+	spemitChains    *spemitChainSet
+)
+
+// spemitOwnDER parses a certificate from a buffer of its own with no spare capacity, so that code appending
+// to Certificate.Raw can never write into memory shared between the harness's concurrent cases.
+func spemitOwnDER(der []byte) *x509.Certificate {
+	own := make([]byte, len(der))
+	copy(own, der)
+	cert, err := x509.ParseCertificate(own)
+	if err != nil {
+		panic(err)
+	}
+	return cert
+}
+
+func spemitIssue(serial int64, cn string, ca bool, pub crypto.PublicKey, parent *x509.Certificate, parentKey crypto.Signer) *x509.Certificate {
+	tpl := &x509.Certificate{
+		SerialNumber:          big.NewInt(serial),
+		Subject:               pkix.Name{CommonName: cn, Organization: []string{"verif harness"}},
+		NotBefore:             time.Date(2020, 1, 1, 0, 0, 0, 0, time.UTC),
+		NotAfter:              time.Date(2100, 1, 1, 0, 0, 0, 0, time.UTC),
+		KeyUsage:              x509.KeyUsageDigitalSignature,
+		BasicConstraintsValid: true,
+	}
+	if ca {
+		tpl.IsCA, tpl.KeyUsage = true, x509.KeyUsageCertSign|x509.KeyUsageCRLSign
+	}
+	if parent == nil {
+		parent = tpl // self-signed
+	}
+	der, err := x509.CreateCertificate(crand.Reader, tpl, parent, pub, parentKey)
+	if err != nil {
+		panic(err)
+	}
+	return spemitOwnDER(der)
+}
+
+func spemitChain() *spemitChainSet {
+	spemitChainOnce.Do(func() {
+		rootK, ca2K, ca1K := key("att"), key("idpenc"), key("idp2")
+		cs := &spemitChainSet{leaf: map[string]*x509.Certificate{}}
+		cs.root = spemitIssue(1, "Harness Root CA", true, rootK.Key.Public(), nil, rootK.Key)
+		cs.ca2 = spemitIssue(2, "Harness Policy CA", true, ca2K.Key.Public(), cs.root, rootK.Key)
+		cs.ca1 = spemitIssue(3, "Harness Issuing CA", true, ca1K.Key.Public(), cs.ca2, ca2K.Key)
+		spemitChains = cs
+	})
+	return spemitChains
+}
+
+// spemitLeaf is the certificate of the fixed SP key keyName issued by ca1.
+func spemitLeaf(keyName string) *x509.Certificate {
+	cs := spemitChain()
+	cs.mu.Lock()
+	defer cs.mu.Unlock()
+	if c, ok := cs.leaf[keyName]; ok {
+		return c
+	}
+	c := spemitIssue(100+int64(len(cs.leaf)), "sp.example.com", false, spemitKey(keyName).Key.Public(), cs.ca1, key("idp2").Key)
+	cs.leaf[keyName] = c
+	return c
+}
+
+// spemitCertName names a certificate as the model does: leaf (the certificate of the SP's key), ca1, ca2.
+func spemitCertName(c *x509.Certificate, s *saml.ServiceProvider) string {
+	cs := spemitChain()
+	switch {
+	case s.Certificate != nil && bytes.Equal(c.Raw, s.Certificate.Raw):
+		return "leaf"
+	case bytes.Equal(c.Raw, cs.ca1.Raw):
+		return "ca1"
+	case bytes.Equal(c.Raw, cs.ca2.Raw):
+		return "ca2"
+	case bytes.Equal(c.Raw, cs.root.Raw):
+		return "root"
+	}
+	return "other:" + c.Subject.CommonName
+}
+
+// spemitApplyEnv configures the SP s for the environment the vector names: the attribute
+// WantAuthnRequestsSigned on every IDPSSODescriptor of s.IDPMetadata, and the certificate chain
+// (s.Certificate = the CA-issued certificate of the SP key, s.Intermediates = the CA certificates).
+func spemitApplyEnv(s *saml.ServiceProvider, v *spemitVec) {
+	spemitApplyWants(s.IDPMetadata, v.idpWants())
+	kp := spemitKey(v.Cfg.Key)
+	cs := spemitChain()
+	switch v.chain() {
+	case "none":
+		s.Certificate, s.Intermediates = kp.Cert, nil
+	case "one":
+		s.Certificate, s.Intermediates = spemitLeaf(v.Cfg.Key), []*x509.Certificate{cs.ca1}
+	case "two":
+		s.Certificate, s.Intermediates = spemitLeaf(v.Cfg.Key), []*x509.Certificate{cs.ca1, cs.ca2}
+	default:
+		panic("unknown chain class " + v.Cfg.Chain)
+	}
+}
+
+func spemitApplyWants(md *saml.EntityDescriptor, wants string) {
+	for i := range md.IDPSSODescriptors {
+		switch wants {
+		case "absent":
+			md.IDPSSODescriptors[i].WantAuthnRequestsSigned = nil
+		case "true", "false":
+			b := wants == "true"
+			md.IDPSSODescriptors[i].WantAuthnRequestsSigned = &b
+		default:
+			panic("unknown WantAuthnRequestsSigned class " + wants)
+		}
+	}
+}
+
 func spemitSP(v *spemitVec, c *spemitConc) *saml.ServiceProvider {
 	kp := spemitKey(v.Cfg.Key)
 	s := &saml.ServiceProvider{
@@ -410,6 +569,7 @@ func spemitSP(v *spemitVec, c *spemitConc) *saml.ServiceProvider {
 	if v.Cfg.Rac {
 		s.RequestedAuthnContext = &saml.RequestedAuthnContext{Comparison: "exact", AuthnContextClassRef: spemitRacClass}
 	}
+	spemitApplyEnv(s, v)
 	return s
 }
 
@@ -471,6 +631,7 @@ func spemitEmit(s *saml.ServiceProvider, v *spemitVec, c *spemitConc) *spemitEmi
 	replace := func() {
 		if v.In.Swap {
 			s.IDPMetadata = spemitIdpMetadataReplaced()
+			spemitApplyWants(s.IDPMetadata, v.idpWants()) // the IdP moved its endpoints, not its wishes
 		}
 	}
 	p, msg := safely(func() {
@@ -1011,7 +1172,20 @@ func spemitCheckMessage(root *etree.Element, v *spemitVec, c *spemitConc, knownI
 // ---------------------------------------------------------------------------
 // the SP's published certificate
 
+// spemitPublishedCert returns "the certificate in the SP's published metadata": the FIRST certificate of
+// the KeyDescriptor use="signing" found in sp.Metadata() after an XML round trip.
 func spemitPublishedCert(s *saml.ServiceProvider) (*x509.Certificate, *saml.EntityDescriptor, error) {
+	certs, md, err := spemitPublishedChain(s)
+	if err != nil {
+		return nil, md, err
+	}
+	return certs[0], md, nil
+}
+
+// spemitPublishedChain returns every certificate of the one signing KeyDescriptor, in document order.  An
+// X509Certificate element may hold several DER certificates one after the other (that is how this library
+// publishes sp.Intermediates); several X509Certificate elements are read in order as well.
+func spemitPublishedChain(s *saml.ServiceProvider) ([]*x509.Certificate, *saml.EntityDescriptor, error) {
 	b, err := xml.Marshal(s.Metadata())
 	if err != nil {
 		return nil, nil, err
@@ -1021,28 +1195,33 @@ func spemitPublishedCert(s *saml.ServiceProvider) (*x509.Certificate, *saml.Enti
 		return nil, nil, err
 	}
 	var found []*x509.Certificate
+	descriptors := 0
 	for _, d := range md.SPSSODescriptors {
 		for _, kd := range d.KeyDescriptors {
 			if kd.Use != "signing" {
 				continue
 			}
+			descriptors++
 			for _, c := range kd.KeyInfo.X509Data.X509Certificates {
 				raw, err := base64.StdEncoding.DecodeString(strings.Join(strings.Fields(c.Data), ""))
 				if err != nil {
 					return nil, md, err
 				}
-				cert, err := x509.ParseCertificate(raw)
+				certs, err := x509.ParseCertificates(raw)
 				if err != nil {
 					return nil, md, err
 				}
-				found = append(found, cert)
+				found = append(found, certs...)
 			}
 		}
 	}
-	if len(found) != 1 {
-		return nil, md, fmt.Errorf("%d signing certificates in the published metadata", len(found))
+	if descriptors != 1 {
+		return nil, md, fmt.Errorf("%d signing key descriptors in the published metadata", descriptors)
 	}
-	return found[0], md, nil
+	if len(found) == 0 {
+		return nil, md, errors.New("the signing key descriptor of the published metadata holds no certificate")
+	}
+	return found, md, nil
 }
 
 // ---------------------------------------------------------------------------
